@@ -5,6 +5,10 @@
 //   gme pstate e=<endpoint> ready=0|1       what the pool's monitor goroutine delivers
 //   gme rpc name=<name>|-                   which pool an RPC with that context would use
 //   gme close
+//   gme livemon flips=<k> [final=<READY|NOTREADY>]   a pool with real connectivity (in-memory server): while an update holds
+//        the GME lock in a slow dial, the pool's connectivity flips k times; once the update returned and everything is
+//        quiet the MultiEndpoint must have been told the pool's current state (final= is the state the harness read)
+//        => told=<A|U>
 //   => ok|err ; mes=<name>:<current>:<id>/<prio>/<U|A|R>+... pools=<e>+<e> default=<name> open=<n> monitors=<n> dials=<e>:<n>+...
 // Pools are real *grpc.ClientConn whose connection attempts never finish (state stays CONNECTING), so the
 // only availability changes are the ones the harness delivers through monitoredConn.notify.
@@ -23,12 +27,14 @@ import (
 	"sort"
 	"strconv"
 	"strings"
+	"sync"
 	"testing"
 	"time"
 
 	"google.golang.org/grpc"
 	"google.golang.org/grpc/connectivity"
 	"google.golang.org/grpc/credentials/insecure"
+	"google.golang.org/grpc/test/bufconn"
 
 	"github.com/GoogleCloudPlatform/grpc-gcp-go/grpcgcp/multiendpoint"
 	pb "github.com/GoogleCloudPlatform/grpc-gcp-go/grpcgcp/grpc_gcp"
@@ -40,11 +46,181 @@ type gmeHarness struct {
 	dials  map[string]int
 	fail   map[string]bool
 	apiCfg *pb.ApiConfig
+
+	// live endpoint ("live..." targets) and slow dial ("slow" target) of the livemon scenario
+	liveMu      sync.Mutex
+	liveLis     *bufconn.Listener
+	liveUp      bool
+	liveConns   []net.Conn
+	slowEntered chan struct{}
+	slowRelease chan struct{}
+}
+
+func (h *gmeHarness) liveDial(ctx context.Context, addr string) (net.Conn, error) {
+	h.liveMu.Lock()
+	defer h.liveMu.Unlock()
+	if !h.liveUp || h.liveLis == nil {
+		return nil, errors.New("verif: live endpoint is down")
+	}
+	c, err := h.liveLis.Dial()
+	if err == nil {
+		h.liveConns = append(h.liveConns, c)
+	}
+	return c, err
+}
+
+func (h *gmeHarness) liveSet(up bool) {
+	h.liveMu.Lock()
+	h.liveUp = up
+	cs := h.liveConns
+	if !up {
+		h.liveConns = nil
+	}
+	h.liveMu.Unlock()
+	if !up {
+		for _, c := range cs {
+			c.Close()
+		}
+	}
+}
+
+// liveMon: see the header. Returns the operation line (with the final connectivity the harness read) and the observation.
+func (h *gmeHarness) liveMon(flips int) (line, obs string) {
+	line = fmt.Sprintf("gme livemon flips=%d final=?", flips)
+	defer func() {
+		if r := recover(); r != nil {
+			obs = "PANIC"
+		}
+	}()
+	if h.gme != nil {
+		h.gme.Close()
+		h.gme = nil
+	}
+	h.conns, h.dials, h.fail = map[string][]*grpc.ClientConn{}, map[string]int{}, map[string]bool{}
+	lis := bufconn.Listen(1 << 16)
+	srv := grpc.NewServer()
+	go srv.Serve(lis)
+	defer srv.Stop()
+	h.liveMu.Lock()
+	h.liveLis, h.liveUp, h.liveConns = lis, true, nil
+	h.liveMu.Unlock()
+	h.slowEntered, h.slowRelease = make(chan struct{}), make(chan struct{})
+	released := false
+	defer func() {
+		if !released {
+			close(h.slowRelease)
+		}
+	}()
+	mk := func(withSlow bool) *GCPMultiEndpointOptions {
+		o := &GCPMultiEndpointOptions{GRPCgcpConfig: h.apiCfg, Default: "main", DialFunc: h.dial,
+			MultiEndpoints: map[string]*multiendpoint.MultiEndpointOptions{"main": {Endpoints: []string{"live1", "e2"}}}}
+		if withSlow {
+			o.MultiEndpoints["other"] = &multiendpoint.MultiEndpointOptions{Endpoints: []string{"slow"}}
+		}
+		return o
+	}
+	g, err := NewGCPMultiEndpoint(mk(false))
+	if err != nil {
+		return line, "err"
+	}
+	h.gme = g
+	defer func() {
+		g.Close()
+		h.gme = nil
+		h.digestAfterClose()
+	}()
+	conn := g.pools["live1"].conn
+	told := func() string {
+		g.mu.RLock()
+		defer g.mu.RUnlock()
+		for _, l := range multiendpoint.VerifDump(g.mes["main"]) {
+			if strings.HasPrefix(l, "live1/") {
+				return l[len(l)-1:]
+			}
+		}
+		return "?"
+	}
+	waitState := func(ready bool) bool {
+		for i := 0; i < 1000; i++ {
+			if (conn.GetState() == connectivity.Ready) == ready {
+				return true
+			}
+			if ready {
+				conn.ResetConnectBackoff()
+			}
+			time.Sleep(5 * time.Millisecond)
+		}
+		return false
+	}
+	if !waitState(true) {
+		return line, "no-connectivity"
+	}
+	for i := 0; i < 400 && told() != "A"; i++ {
+		time.Sleep(5 * time.Millisecond)
+	}
+	if told() != "A" {
+		return fmt.Sprintf("gme livemon flips=0 final=READY"), "told=" + told()
+	}
+	updDone := make(chan error, 1)
+	go func() { updDone <- g.UpdateMultiEndpoints(mk(true)) }()
+	select {
+	case <-h.slowEntered:
+	case <-time.After(5 * time.Second):
+		return line, "slow-dial-not-entered"
+	}
+	up := true
+	for i := 0; i < flips; i++ {
+		up = !up
+		h.liveSet(up)
+		if !waitState(up) {
+			return line, "no-connectivity"
+		}
+		time.Sleep(60 * time.Millisecond) // the monitor goroutine has seen this state and is blocked in notify
+	}
+	close(h.slowRelease)
+	released = true
+	select {
+	case <-updDone:
+	case <-time.After(5 * time.Second):
+		return line, "HANG"
+	}
+	// quiescence = what the theorem blocked_means_told speaks about: every monitor goroutine sleeps in
+	// WaitForStateChange (seen in the goroutine profile, on consecutive samples) and the connectivity is the final one
+	final := "NOTREADY"
+	if up {
+		final = "READY"
+	}
+	quiet := 0
+	for i := 0; i < 1000 && quiet < 5; i++ {
+		if (conn.GetState() == connectivity.Ready) == up && gmeMonitorsBlocked() {
+			quiet++
+		} else {
+			quiet = 0
+		}
+		time.Sleep(5 * time.Millisecond)
+	}
+	if quiet < 5 || (conn.GetState() == connectivity.Ready) != up {
+		return line, "no-connectivity"
+	}
+	return fmt.Sprintf("gme livemon flips=%d final=%s", flips, final), "told=" + told()
 }
 
 func (h *gmeHarness) dial(ctx context.Context, target string, opts ...grpc.DialOption) (*grpc.ClientConn, error) {
 	if h.fail[target] {
 		return nil, errors.New("verif: dial failure")
+	}
+	if target == "slow" && h.slowEntered != nil {
+		close(h.slowEntered)
+		<-h.slowRelease
+		h.slowEntered = nil
+	}
+	if strings.HasPrefix(target, "live") {
+		opts = append(opts, grpc.WithTransportCredentials(insecure.NewCredentials()), grpc.WithContextDialer(h.liveDial))
+		c, err := grpc.Dial("passthrough:///"+target, opts...)
+		if err == nil {
+			h.conns[target] = append(h.conns[target], c)
+		}
+		return c, err
 	}
 	opts = append(opts, grpc.WithTransportCredentials(insecure.NewCredentials()),
 		grpc.WithContextDialer(func(ctx context.Context, addr string) (net.Conn, error) {
@@ -62,6 +238,18 @@ func gmeMonitors() int {
 	var buf bytes.Buffer
 	pprof.Lookup("goroutine").WriteTo(&buf, 2)
 	return strings.Count(buf.String(), "(*monitoredConn).monitor(")
+}
+
+// gmeMonitorsBlocked: every monitor goroutine is inside ClientConn.WaitForStateChange
+func gmeMonitorsBlocked() bool {
+	var buf bytes.Buffer
+	pprof.Lookup("goroutine").WriteTo(&buf, 2)
+	for _, g := range strings.Split(buf.String(), "\n\n") {
+		if strings.Contains(g, "(*monitoredConn).monitor(") && !strings.Contains(g, ".WaitForStateChange(") {
+			return false
+		}
+	}
+	return true
 }
 
 func (h *gmeHarness) digest() string {
@@ -148,6 +336,10 @@ func (h *gmeHarness) exec(line string) (out string) {
 	toks := strings.Split(line, " ")
 	a := argsOf(toks[2:])
 	switch toks[1] {
+	case "livemon":
+		k, _ := strconv.Atoi(a["flips"])
+		l, o := h.liveMon(k)
+		return "@" + l + " => " + o
 	case "new", "upd":
 		h.fail = map[string]bool{}
 		for _, e := range strings.Split(a["fail"], "+") {
@@ -271,17 +463,44 @@ func TestVerifGME(t *testing.T) {
 	h := &gmeHarness{conns: map[string][]*grpc.ClientConn{}, dials: map[string]int{}, apiCfg: &pb.ApiConfig{ChannelPool: &pb.ChannelPoolConfig{MinSize: 1, MaxSize: 2}}}
 	emit := func(line string) string {
 		obs := h.exec(line)
+		if strings.HasPrefix(obs, "@") { // the operation reports its own line (it carries what the environment did)
+			fmt.Fprintf(w, "%s\n", obs[1:])
+			return obs
+		}
 		fmt.Fprintf(w, "%s => %s\n", line, obs)
 		return obs
 	}
+	if ops := os.Getenv("VERIF_OPS"); ops != "" {
+		for _, file := range strings.Split(ops, ",") {
+			data, err := os.ReadFile(file)
+			if err != nil {
+				t.Fatal(err)
+			}
+			for _, line := range strings.Split(string(data), "\n") {
+				line = strings.TrimSpace(line)
+				if line == "" || strings.HasPrefix(line, "#") {
+					continue
+				}
+				if i := strings.Index(line, " =>"); i >= 0 {
+					line = line[:i]
+				}
+				emit(line)
+			}
+		}
+	}
 	eps := []string{"e1", "e2", "e3", "e4"}
-	names := []string{"default", "read", "w"}
+	names := []string{"default", "read", "w", "x"}
 	genOpts := func() (string, string, string) {
 		n := 1 + rng.Intn(3)
 		items := []string{}
 		used := []string{}
+		// any subset of the names: an update may drop one name while it adds another
+		pick := rng.Perm(len(names))
+		if rng.Intn(3) == 0 {
+			pick = []int{0, 1, 2, 3}
+		}
 		for i := 0; i < n; i++ {
-			name := names[i]
+			name := names[pick[i]]
 			k := 1 + rng.Intn(3)
 			l := []string{}
 			for j := 0; j < k; j++ {
@@ -312,6 +531,9 @@ func TestVerifGME(t *testing.T) {
 		return def, strings.Join(items, ","), fail
 	}
 	for ep := 0; ep < episodes; ep++ {
+		if ep%40 == 1 { // a pool with real connectivity and the real monitor goroutine
+			emit(fmt.Sprintf("gme livemon flips=%d", 1+(ep/40)%4))
+		}
 		d, o, fl := genOpts()
 		obs := emit(fmt.Sprintf("gme new default=%s opts=%s fail=%s", d, o, fl))
 		if !strings.HasPrefix(obs, "ok") {
@@ -322,7 +544,7 @@ func TestVerifGME(t *testing.T) {
 			case k < 3:
 				emit(fmt.Sprintf("gme pstate e=%s ready=%d", eps[rng.Intn(len(eps))], rng.Intn(2)))
 			case k < 7:
-				nm := []string{"-", "default", "read", "w", "zzz"}[rng.Intn(5)]
+				nm := []string{"-", "default", "read", "w", "x", "zzz"}[rng.Intn(6)]
 				emit("gme rpc name=" + nm)
 			default:
 				d, o, fl := genOpts()
